@@ -109,3 +109,6 @@ Proof. intros H g f Hin. rewrite forallb_forall in H. apply (H (g, f) Hin). Qed.
 
 (* state reached by a program *)
 Definition reaches (ops : list op) (st : pstate) : Prop := run ops = RunOk (Some st).
+
+(* evaluate formulas without touching Z arithmetic *)
+Ltac ev := cbn [feval teval prec_rel cmp_sum pb S_ E_ D_ BS BE tsum fcount fold_right forallb existsb aux bsv bev b2z implb xorb negb andb orb Bool.eqb] in *.
